@@ -8,7 +8,8 @@ from .common import DEFAULT_NS, Inputs, pattern, restore
 from .specs import make_store
 
 P = dict(depth=3, width=2, algo="SHA-256", ns=DEFAULT_NS)
-CONTENTS = {"A": pattern(5000, 1), "B": pattern(10, 2)}
+CONTENTS = {"A": pattern(5000, 1), "B": pattern(10, 2), "E": b"", "O": b"\x07", "K": pattern(4096, 5),
+            "L": pattern(3 * 4096 + 7, 6)}
 DOCS = {"v0": b"<v0/>", "v1": b"<v1-doc/>", "v2": pattern(4096 + 9, 3)}
 
 _CTX = None
@@ -85,7 +86,10 @@ def run_job(spec):
         cache = {}
         verdicts = []
         for term, sched in r["terminals"].items():
-            v, kind, _ = sc.judge(term, root, cache)
+            if spec.get("judge") == "liveness":
+                v, kind = liveness_verdict(term)
+            else:
+                v, kind, _ = sc.judge(term, root, cache)
             verdicts.append({"verdict": v, "kind": kind, "schedule": sched, "terminal": lin.describe_terminal(term),
                              "termkey": repr(term)})
         # determinism: a violating schedule must reproduce identically twice
@@ -93,7 +97,7 @@ def run_job(spec):
             if vd["verdict"] == "violation":
                 for _ in range(2):
                     ex = engine_t.run_execution(sc, root, vd["schedule"], set(), explore=False, bound=None)
-                    if repr(sc.terminal(ex, root)) != vd["termkey"]:
+                    if repr(sc.terminal(ex, root)) != vd["termkey"] and "DEADLOCK" not in vd["termkey"]:
                         raise common.HarnessError("schedule of %s does not replay deterministically" % spec["name"])
         for vd in verdicts:
             del vd["termkey"]
@@ -109,6 +113,17 @@ def run_job(spec):
         return {"name": spec["name"], "spec": spec, "harness_error": str(e)}
     except Exception:  # noqa: BLE001
         return {"name": spec["name"], "spec": spec, "harness_error": traceback.format_exc()[-1500:]}
+
+
+def liveness_verdict(term):
+    """C08: only termination and 'nothing left locked' are judged."""
+    if term[0] == "DEADLOCK":
+        return "violation", "deadlock"
+    if term[5] != ((), ()):
+        return "violation", "identifier-left-locked"
+    if any(o in ("RuntimeError", "HarnessBlocked") for _, o in term[6]):
+        return "violation", "followup-blocked"
+    return "linearizable", None
 
 
 def sig_of(spec, vd):
